@@ -17,6 +17,7 @@ package c14
 
 import (
 	"bytes"
+	"encoding/json"
 	"errors"
 	"fmt"
 	"math"
@@ -700,6 +701,7 @@ func Run(c *lib.Ctx) {
 		run(pool, rr)
 	}
 	fails = append(fails, mutatedInPlace(c, r.Fork())...)
+	fails = append(fails, rewrittenInPlace(c, r.Fork())...)
 	ms, err := c.RunModel("c14", sc)
 	if err != nil {
 		ms = append(ms, lib.Mismatch{Op: "(model driver failed)", Model: err.Error()})
@@ -773,6 +775,121 @@ func mutatedInPlace(c *lib.Ctx, r *lib.RNG) (fails []lib.OracleFail) {
 			}
 		}
 		c.Hit("oracle-mutated-in-place")
+	}
+	return fails
+}
+
+// rewrittenInPlace: the laws on a value that has been OBSERVED and then re-written in place by one of its own
+// unmarshalers – Binary.UnmarshalText / UnmarshalBinary, Slice.UnmarshalJSON, the immutable map's UnmarshalJSON,
+// Error.UnmarshalText – with input that is ACCEPTED or REFUSED (corrupt base64 after a valid prefix, truncated
+// JSON, JSON of the wrong shape). Whatever the call returned, the value must afterwards obey the laws against a
+// FRESH value built from what it now reads: Equal both ways, Compare 0 both ways, equal hashes, alone and as an
+// element. Nothing is demanded about WHAT it reads after a refusal (the property does not say), only that its
+// hash and its contents agree. (Seeded change c14j: Binary.UnmarshalText stores the decoded prefix before it
+// looks at the error and resets the memoised hash only on success – after a refused write the value holds new
+// bytes under its old hash.)
+func rewrittenInPlace(c *lib.Ctx, r *lib.RNG) (fails []lib.OracleFail) {
+	texts := []string{"AAEC", "AAECAwQF", "", "YQ==", "AAEC!!!!", "AAECAw=", "!", "YWJj*GRl", "AAEC\n", "QUJD"}
+	jsons := []string{`[1,"a",null]`, `[]`, `[[1],{"k":2}]`, `[1,`, `{"a":1}`, `"x"`, `{"a":1,"b":[1,2]}`, `{}`, `{"a":`, `[1] 2`, `null`, `{"a":{"b":{}}}`}
+	mkTarget := func(kind int) (types.Value, func() types.Value) {
+		switch kind {
+		case 0:
+			b := types.NewBinary([]byte{0, 1, 2, 3, 4, 5})
+			return b, func() types.Value { return types.NewBinary(append([]byte{}, b.Bytes()...)) }
+		case 1:
+			s := types.NewSlice(types.NewInt(1), str("x"))
+			return s, func() types.Value { return types.NewSlice(append([]types.Value{}, s.Values()...)...) }
+		case 2:
+			m := types.NewMap(str("a"), types.NewInt(1), str("z"), str("y"))
+			return m, func() types.Value {
+				var pairs []types.Value
+				for k, v := range m.Range() {
+					pairs = append(pairs, k, v)
+				}
+				return types.NewMap(pairs...)
+			}
+		default:
+			e := types.NewError(errors.New("first"))
+			return e, func() types.Value { return types.NewError(errors.New(e.Error())) }
+		}
+	}
+	for round := 0; round < c.Scale(80, 800) && len(fails) < 3; round++ {
+		kind := r.Intn(4)
+		v, freshOf := mkTarget(kind)
+		var trace []string
+		for step := 0; step < r.Range(2, 6) && len(fails) < 3; step++ {
+			var err error
+			if p := lib.Safe(func() {
+				switch r.Intn(4) {
+				case 0:
+					_ = v.Hash()
+					trace = append(trace, "hash")
+				case 1:
+					_ = types.NewSlice(v).Hash()
+					trace = append(trace, "hash-as-element")
+				case 2:
+					_ = types.Equal(freshOf(), v)
+					trace = append(trace, "equal-as-argument")
+				}
+				switch x := v.(type) {
+				case types.Binary:
+					if r.Intn(4) == 0 {
+						data := []byte(lib.Pick(r, texts))
+						err = x.UnmarshalBinary(data)
+						trace = append(trace, fmt.Sprintf("binary.UnmarshalBinary %q", data))
+					} else {
+						t := lib.Pick(r, texts)
+						if r.Intn(3) == 0 {
+							err = json.Unmarshal([]byte(`"`+strings.ReplaceAll(t, "\n", "\\n")+`"`), x)
+							trace = append(trace, fmt.Sprintf("json.Unmarshal %q into the binary", t))
+						} else {
+							err = x.UnmarshalText([]byte(t))
+							trace = append(trace, fmt.Sprintf("binary.UnmarshalText %q", t))
+						}
+					}
+				case types.Slice:
+					t := lib.Pick(r, jsons)
+					err = x.UnmarshalJSON([]byte(t))
+					trace = append(trace, "slice.UnmarshalJSON "+t)
+				case types.Map:
+					t := lib.Pick(r, jsons)
+					err = json.Unmarshal([]byte(t), x)
+					trace = append(trace, "map.UnmarshalJSON "+t)
+				case types.Error:
+					t := lib.Pick(r, texts)
+					err = x.UnmarshalText([]byte(t))
+					trace = append(trace, fmt.Sprintf("error.UnmarshalText %q", t))
+				}
+			}); p != "" {
+				fails = append(fails, lib.OracleFail{Class: "panic", What: "re-writing an observed value in place panicked: " + p, Replay: strings.Join(trace, "\n")})
+				return
+			}
+			if err != nil {
+				trace[len(trace)-1] += "   -> refused: " + err.Error()
+				c.Hit(fmt.Sprintf("rewrite:refused:kind%d", kind))
+			} else {
+				c.Hit(fmt.Sprintf("rewrite:accepted:kind%d", kind))
+			}
+			fresh := freshOf()
+			c.Evaluations++
+			bad := func(what string) {
+				c.Hit("oracle-fail:equal-hash")
+				fails = append(fails, lib.OracleFail{Class: "equal-hash", What: fmt.Sprintf("a value re-written in place after it had been observed, against a fresh value with the contents it now reads [%s]: %s", lib.EncodeVal(fresh), what), Replay: strings.Join(trace, "\n")})
+			}
+			switch {
+			case !types.Equal(v, fresh) || !types.Equal(fresh, v):
+				bad(fmt.Sprintf("Equal(v,fresh)=%v Equal(fresh,v)=%v", types.Equal(v, fresh), types.Equal(fresh, v)))
+			case types.Compare(v, fresh) != 0 || types.Compare(fresh, v) != 0:
+				bad(fmt.Sprintf("Compare = %d / %d", types.Compare(v, fresh), types.Compare(fresh, v)))
+			case types.HashOf(v) != types.HashOf(fresh):
+				bad(fmt.Sprintf("Equal but Hash %d != %d", types.HashOf(v), types.HashOf(fresh)))
+			case types.HashOf(types.NewSlice(v)) != types.HashOf(types.NewSlice(fresh)) || !types.Equal(types.NewSlice(fresh), types.NewSlice(v)):
+				bad("as the element of a slice: hashes or Equal differ")
+			case types.NewMap(str("k"), v).Hash() != types.NewMap(str("k"), fresh).Hash():
+				bad("as the value of a map: hashes differ")
+			}
+		}
+		c.Hit("oracle-rewritten-in-place")
 	}
 	return fails
 }
